@@ -18,6 +18,8 @@ from .c09 import DetRandom, PIN_FILE, PIN_DIR
 FILE_STATES = {
     "absent": None, "valid": b"a1b2a3c1", "digits": b"12345678", "short": b"abc1234",
     "newline": b"a1b2a3c1\n", "empty": b"", "nine": b"abcd12345", "symbol": b"abcd123!",
+    # the PIN file is a symbolic link to a regular file holding a valid PIN (a mounted secret)
+    "link": b"a1b2a3c1",
 }
 DEFAULT_PIN = b"12d4a2cd"
 NOMINAL = None
@@ -361,6 +363,8 @@ class C10(Check):
             fs = memfs.MemFS(ctx, fault_ops=memfs.MemFS.OPS)
             if content is not None:
                 fs.files[PIN_FILE] = content
+            if case["file"] == "link":
+                fs.links[PIN_FILE] = PIN_DIR + "secrets/pin"
             # the PIN the first manager will send
             will_send = file_pin(content) if content is not None else (DEFAULT_PIN if case["default"] else None)
             if case["devpin"] == "match" and will_send is not None:
@@ -465,6 +469,8 @@ class C10(Check):
             fs = memfs.MemFS(ctx, fault_ops=("open-w", "write", "close-w"), crash=False)
             if content is not None:
                 fs.files[PIN_FILE] = content
+            if case["file"] == "link":
+                fs.links[PIN_FILE] = PIN_DIR + "secrets/pin"
             true_pin = file_pin(content) or DEFAULT_PIN
             dev = PinDevice(platform, true_pin)
             dev.ctx = ctx
